@@ -156,12 +156,21 @@ fn special(name: &str) -> String {
         "key_char" => two_routes(&BTreeMap::from([('c', 1)])),
         "key_tuple" => two_routes(&BTreeMap::from([((1, 2), 1)])),
         "key_newtype_variant" => two_routes(&BTreeMap::from([(N(3), true)])),
+        "key_i128" => two_routes(&BTreeMap::from([(1i128, 1), (-5i128, 2)])),
+        "key_u128" => two_routes(&BTreeMap::from([(7u128, 1)])),
+        "key_i128_big" => two_routes(&BTreeMap::from([(i128::MIN, 1)])),
+        "key_u128_big" => two_routes(&BTreeMap::from([(u128::MAX, 1)])),
+        "key_i64" => two_routes(&BTreeMap::from([(i64::MIN, 1), (i64::MAX, 2)])),
+        "key_u64" => two_routes(&BTreeMap::from([(u64::MAX, 1)])),
+        "key_bool" => two_routes(&BTreeMap::from([(true, 1), (false, 2)])),
+        "key_i8" => two_routes(&BTreeMap::from([(-128i8, 1)])),
         _ => "bad-name".into(),
     }
 }
 pub const SPECIALS: &[&str] = &[
     "f64_nan", "f64_inf", "f64_ninf", "f32_nan", "vec_nan", "u128_max", "u128_u64max_plus1", "u128_u64max", "i128_min", "i128_i64min_minus1", "i128_i64min",
     "key_vec", "key_option", "key_unit", "key_f64", "key_char", "key_tuple", "key_newtype_variant",
+    "key_i128", "key_u128", "key_i128_big", "key_u128_big", "key_i64", "key_u64", "key_bool", "key_i8",
 ];
 
 /// equality laws on two texts: DOM values built in different ways from each
